@@ -74,6 +74,9 @@ func method(name, verb, route string, prefix string) scen.Method {
 
 // ---- family A/B: one controller, full product -----------------------------------------------------------
 
+// Cases returns the one-controller product family (used by C08/C11 as the 'layout' family).
+func Cases(tier string) []scen.Case { return productCases(tier) }
+
 func productCases(tier string) []scen.Case {
 	verbs := []string{"GET", "POST", "PUT", "DELETE", "PATCH"}
 	prefixesA := []string{"/§", "§", "/§/", "//§", "/§/a", "/§//a", "/§/{t}"}
